@@ -409,7 +409,9 @@ func checkCalls(fset *token.FileSet, pos token.Pos, name string, pkgPath string,
 // generated package.
 func (g *gen) rewritePkgRefs(info *types.Info, node ast.Node) ast.Node {
 	start, end := node.Pos(), node.End()
-	node = copyAST(node)
+	// info is keyed by the nodes of the original tree; originals maps the
+	// nodes of the copy back to them.
+	node, originals := copyASTWithOriginals(node)
 	// First, rewrite all package names. This lets us know all the
 	// potentially colliding identifiers.
 	node = astutil.Apply(node, func(c *astutil.Cursor) bool {
@@ -465,7 +467,7 @@ func (g *gen) rewritePkgRefs(info *types.Info, node ast.Node) ast.Node {
 	var scopeStack []*types.Scope
 	pkgScope := g.pkg.Types.Scope()
 	node = astutil.Apply(node, func(c *astutil.Cursor) bool {
-		if scope := info.Scopes[c.Node()]; scope != nil {
+		if scope := info.Scopes[originals[c.Node()]]; scope != nil {
 			scopeStack = append(scopeStack, scope)
 		}
 		id, ok := c.Node().(*ast.Ident)
@@ -512,7 +514,7 @@ func (g *gen) rewritePkgRefs(info *types.Info, node ast.Node) ast.Node {
 		c.Replace(ast.NewIdent(newName))
 		return false
 	}, func(c *astutil.Cursor) bool {
-		if info.Scopes[c.Node()] != nil {
+		if info.Scopes[originals[c.Node()]] != nil {
 			// Should be top of stack; pop it.
 			scopeStack = scopeStack[:len(scopeStack)-1]
 		}
